@@ -138,7 +138,7 @@ def laws_generic(ctx, docs, limit, rng):
             pass
 
 
-def run(ctx):
+def _run_property(ctx):
     ctx.cov['rule'] = ('notebook laws: base b, edit X of b (random edit scripts) under a strategy family sample and each text helper; symmetry on triples '
                        'without concurrent insertions at the same position; generic JSON: all triples of lists (<=3 items), line strings and 2-key objects over '
                        '{a,b,c} (exhaustive in the thorough tier, sampled in quick); non-trivial = the three documents are not all equal; distinct by (law, inputs, strategy)')
@@ -163,7 +163,24 @@ def run(ctx):
     ctx.sample({'law': 'local-only', 'statement': 'merge(b, X, b) == X without conflict'})
 
 
+MERGE_MODEL_THEOREMS = []
+
+
+def run(ctx):
+    from checks import mergemodel
+    _run_property(ctx)
+    mergemodel.tie(ctx, (40, 60, 500, 800), MERGE_MODEL_THEOREMS)
+
+
 def replay(path):
+    _d = json.load(open(path))['data']
+    if _d.get('kind') == 'correspondence' and _d.get('stream') == 'merge-model':
+        from checks import mergemodel
+        return mergemodel.replay_case(_d)
+    return _replay_property(path)
+
+
+def _replay_property(path):
     data = json.load(open(path))['data']
     ctx = vlib.Ctx('C05', 'quick', 0)
     k = data.get('kind', '')
